@@ -569,7 +569,8 @@ class GridBase(metaclass=ABCMeta):
         if axes_bounds is None:
             axes_bounds = self.axes_bounds
 
-        diff = np.atleast_1d(x2) - np.atleast_1d(x1)
+        # use floating point numbers since the periodic wrapping below is done in-place
+        diff = np.asarray(np.atleast_1d(x2) - np.atleast_1d(x1), dtype=np.double)
         assert diff.shape[-1] == self.dim
 
         for i, per in enumerate(periodic):
